@@ -240,6 +240,8 @@ def _mape_call(case, y, p, w):
         args = (ys, ps, None if w is None else pandas.Series(w, index=idx))
     else:
         args = (y, p, w)
+    if case.get("positional_weights") and args[2] is not None:
+        return float(_metrics.ts_mape(args[0], args[1], args[2]))          # the documented signature: (expected_y, predicted_y, sample_weight)
     return float(_metrics.ts_mape(args[0], args[1], sample_weight=args[2]))
 
 
@@ -317,7 +319,7 @@ def _mape_cases(draw, naive=False):
     w = draw(st.one_of(st.none(), st.lists(st.integers(1, 32).map(lambda k: k / 4.0), min_size=n, max_size=n)))
     repeat = 0 if draw(st.integers(0, 9)) else (4096 // n + draw(st.integers(1, 300)))
     return dict(y=y, p=p, w=w, container=draw(st.sampled_from(["array", "array", "list", "column", "series", "series-permuted"])),
-                series_args=draw(st.sampled_from(["both", "y", "p"])), naive=bool(naive), repeat=repeat)
+                series_args=draw(st.sampled_from(["both", "y", "p"])), naive=bool(naive), repeat=repeat, positional_weights=draw(st.booleans()))
 
 
 CLAUSES = [
